@@ -24,6 +24,7 @@ import (
 	"crypto/tls"
 	"encoding/base64"
 	"flag"
+	"fmt"
 	"io"
 	"net/http"
 	"os"
@@ -128,7 +129,7 @@ func (b *bastionClient) Update(ctx context.Context, logID string, oldSize uint64
 	// - zero or more consistency proof lines,
 	// - and an empty line,
 	// - followed by a [checkpoint][].
-	body := "old 0\n"
+	body := fmt.Sprintf("old %d\n", oldSize)
 	for _, p := range proof {
 		body += base64.StdEncoding.EncodeToString(p) + "\n"
 	}
